@@ -8,13 +8,13 @@
 (***************************************************************************)
 EXTENDS Mode, Json, TLC, Sequences
 
-CIs      == {"off", "CI", "GITHUB_ACTIONS", "CI=false"}
+CIs      == {"off", "CI", "GITHUB_ACTIONS", "CI=false", "BUILD_NUMBER"}   \* BUILD_NUMBER: a generic marker, no vendor recognised
 APIs     == {"snapshot", "json", "yaml", "ssnap", "sjson"}
 States   == {"missing", "equal", "different"}
 \* concrete spellings of UPDATE_SNAPS and the class each belongs to
 UpdSpell == {"<unset>", "true", "clean", "TRUE", "1", "yes", "false", ""}
 ClassOf(s) == CASE s = "<unset>" -> "unset" [] s = "true" -> "true" [] s = "clean" -> "clean" [] OTHER -> "other"
-IsCI(c) == c \in {"CI", "GITHUB_ACTIONS"}
+IsCI(c) == c \in {"CI", "GITHUB_ACTIONS", "BUILD_NUMBER"}
 
 VARIABLES cell, emitted
 vars == <<cell, emitted>>
